@@ -2,7 +2,7 @@
    ExtrOcamlBasic only (bool, option, list, prod, unit -> OCaml natives); N, positive, nat, Z stay
    extracted datatypes; no Extract Constant / Extract Inductive of our own. *)
 Require Import Coq.extraction.Extraction Coq.extraction.ExtrOcamlBasic.
-Require Import Pearl.Base.Prelude Pearl.Base.LE Pearl.Base.AHash Pearl.Filter.Bloom Pearl.Storage.Model.
+Require Import Pearl.Base.Prelude Pearl.Base.LE Pearl.Base.AHash Pearl.Filter.Bloom Pearl.Storage.Model Pearl.Storage.Spec Pearl.Base.Crc Pearl.Format.Record Pearl.Blob.Bytes.
 Extraction Language OCaml.
 Set Extraction KeepSingleton.
 Extraction "model.ml"
@@ -10,4 +10,6 @@ Extraction "model.ml"
   bv_new bv_get bv_set bv_or
   bloom_new bloom_add bloom_contains_in_memory bloom_contains_fast bloom_to_raw bloom_contains_in_file
   bloom_contains bloom_merge bloom_offload bloom_clear
-  init_storage step step_q.
+  init_storage step step_q spec_answer
+  crc32c encode_header write_record blob_header_bytes entry_load decode_header validate_header
+  gen_data meta_bytes be_bytes blob_file_bytes blob_headers closed_blobs.
